@@ -41,7 +41,7 @@ func (node *InternallyConsistentOutputStreamWrapper) Run(ctx ExecutionContext, p
 				// TODO: Optimize. Use a sensible data structure.
 			findRetractionLoop:
 				for j := i + 1; j < len(pending); j++ {
-					if !pending[j].Retraction {
+					if !pending[j].Retraction || crossedOut[j] {
 						continue
 					}
 					for k := range pending[i].Values {
